@@ -565,14 +565,25 @@ func nativeReplay(path string) (bool, string) {
 	if to == 0 {
 		to = 120
 	}
-	cmd := exec.Command("go", "test", "-tags", "verif", "-mod=mod", "-vet=off", "-count=8", "-overlay", ovPath,
+	cmd := exec.Command("go", "test", "-tags", "verif", "-mod=mod", "-vet=off", "-count="+replayCount(u), "-overlay", ovPath,
 		"-run", "^TestZZReplay$", "-timeout", fmt.Sprintf("%ds", to), "./"+u.PkgDir)
 	if u.PkgDir == "" || u.PkgDir == "." {
 		cmd.Args[len(cmd.Args)-1] = "."
 	}
 	cmd.Dir = filepath.Join(repoDir, u.ModDir)
 	abs, _ := filepath.Abs(path)
-	cmd.Env = append(os.Environ(), "VERIF_REPLAY="+abs, "GOFLAGS=-mod=mod", "GOPROXY=off", "GOSUMDB=off", "GOTOOLCHAIN=local")
+	evyBin := ""
+	if u.PkgName == "main" {
+		// the real binary for syscall-level fault / kill injection
+		evyBin = filepath.Join(tmp, "evy-under-test")
+		b := exec.Command("go", "build", "-mod=mod", "-o", evyBin, ".")
+		b.Dir = repoDir
+		b.Env = append(os.Environ(), "GOFLAGS=-mod=mod", "GOPROXY=off", "GOSUMDB=off", "GOTOOLCHAIN=local")
+		if out, err := b.CombinedOutput(); err != nil {
+			return false, "cannot build evy: " + string(out)
+		}
+	}
+	cmd.Env = append(os.Environ(), "VERIF_REPLAY="+abs, "VERIF_EVY_BIN="+evyBin, "GOFLAGS=-mod=mod", "GOPROXY=off", "GOSUMDB=off", "GOTOOLCHAIN=local")
 	out, _ := cmd.CombinedOutput()
 	so := string(out)
 	switch rf.Kind {
@@ -601,4 +612,11 @@ func cmdReplay(args []string) int {
 	}
 	fmt.Println("NOT-REPRODUCED")
 	return 0
+}
+
+func replayCount(u *Unit) string {
+	if u.PkgName == "main" {
+		return "1" // CLI replays may enumerate system calls; once is enough
+	}
+	return "8"
 }
